@@ -127,4 +127,35 @@ Section CCSafety.
     destruct (LC_le F HF s I t0 k0 (n_term (nodes s l)) Hc0 ltac:(lia) Hne) as [H1 H2].
     rewrite HLL in H1, H2. split; [lia|]. rewrite Hf. apply (firstn_agree_le _ _ _ k0); assumption.
   Qed.
+
+  (* a step never removes or rewrites an entry its node has committed *)
+  Theorem cc_committed_prefix_kept : forall x x', cxreachableF x -> cxstep boot page1 x x' ->
+    forall y, firstn (n_commit (nodeof x y)) (n_log (nodeof x' y))
+              = firstn (n_commit (nodeof x y)) (n_log (nodeof x y)).
+  Proof.
+    intros x x' Hx Hs y. destruct Hs as [id ev extra Hev _]. cbn [cx_nodes].
+    destruct (Nat.eq_dec y id) as [->|Hy]; [rewrite upd_same|rewrite upd_other by exact Hy; reflexivity].
+    destruct (cx_inv x Hx) as (s & I & Hn & Hm).
+    destruct (cx_nodes x id) as [n pend] eqn:Enode. cbn [fst].
+    assert (Hnid : nodes s id = n) by (rewrite Hn, Enode; reflexivity).
+    rewrite <- Hm in Hev.
+    destruct (hK9 _ _ I id) as [H9 _]. unfold nd in H9. rewrite Hnid in H9.
+    unfold exec_cc. set (c := node_cfg boot n).
+    destruct (match ev with EvRecv m => is_response (m_type m) && negb (member c (m_from m)) | _ => false end); [reflexivity|].
+    assert (Hk : firstn (n_commit n) (n_log (fst (fst (handle_cc id c ev n pend)))) = firstn (n_commit n) (n_log n)).
+    { unfold handle_cc. destruct ev as [|p|m| |];
+        try (cbn [fst]; rewrite <- Hnid; apply (handle_keeps F HF (c_in c) (c_out c) s id _ I Hev)).
+      assert (Hp : forall q, firstn (n_commit n) (n_log (propose q n)) = firstn (n_commit n) (n_log n)).
+      { intros q. unfold propose. destruct (n_role n); try reflexivity. cbn [set_log n_log]. apply firstn_app_le. exact H9. }
+      destruct (n_role n) eqn:Er; cbn [fst]; try reflexivity.
+      destruct (negb (member c id)); cbn [fst]; [reflexivity|].
+      destruct (cc_of_payload p) as [op|]; cbn [fst]; [|apply Hp].
+      destruct ((n_commit n <? pend) || joint c && negb match op with CcLeave => true | _ => false end
+                || negb (joint c) && match op with CcLeave => true | _ => false end); cbn [fst]; apply Hp. }
+    destruct (handle_cc id c ev n pend) as [[n1 out] pend1]. cbn [fst] in Hk.
+    destruct (iter_log page1 id (2 * length (n_log n1) + 8) (n1, c, pend1, n_commit n)) as [suf E].
+    destruct (iter (2 * length (n_log n1) + 8) (ready_iter page1 id) (n1, c, pend1, n_commit n)) as [[[n2 c2] pend2] a2].
+    unfold st_node in E. cbn [fst] in *. rewrite E.
+    rewrite firstn_app_le; [exact Hk|]. eapply firstn_len_le; [symmetry; exact Hk|exact H9].
+  Qed.
 End CCSafety.
